@@ -100,6 +100,10 @@ func createTransaction(w http.ResponseWriter, r *http.Request) {
 				api.BadRequest(w, common.ErrValidation, err)
 			case errors.Is(err, ledgerstore.ErrTransactionReferenceConflict{}):
 				api.WriteErrorResponse(w, http.StatusConflict, common.ErrConflict, err)
+			case errors.Is(err, ledgercontroller.ErrParsing{}):
+				api.BadRequest(w, common.ErrInterpreterParse, err)
+			case errors.Is(err, ledgercontroller.ErrRuntime{}):
+				api.BadRequest(w, common.ErrInterpreterRuntime, err)
 			default:
 				common.HandleCommonWriteErrors(w, r, err)
 			}
@@ -140,6 +144,10 @@ func createTransaction(w http.ResponseWriter, r *http.Request) {
 			api.BadRequest(w, common.ErrValidation, err)
 		case errors.Is(err, ledgerstore.ErrTransactionReferenceConflict{}):
 			api.WriteErrorResponse(w, http.StatusConflict, common.ErrConflict, err)
+		case errors.Is(err, ledgercontroller.ErrParsing{}):
+			api.BadRequest(w, common.ErrInterpreterParse, err)
+		case errors.Is(err, ledgercontroller.ErrRuntime{}):
+			api.BadRequest(w, common.ErrInterpreterRuntime, err)
 		default:
 			common.HandleCommonWriteErrors(w, r, err)
 		}
